@@ -129,6 +129,18 @@ def run(ctx):
         doc = [["decay", mother, lines]]
         if rng.random() < 0.3:
             doc.insert(0, ["decay", "Other", [["1.0", ["x"], False, ["named", "PHSP", None]]]])
+        # tables derived from the printed one (a conjugate through CDecay, a copy through CopyDecay) in the same file: printed
+        # next to their source on the same parser object, every table shows its own lines
+        targets = [mother]
+        if not use_pdg and rng.random() < 0.35:
+            doc.append(["chargeconj", mother, "anti-" + mother if gen.safe_label("anti-" + mother) else "Conj1"])
+            doc.append(["cdecay", doc[-1][2]])
+            targets.append(doc[-1][1])
+        if not use_pdg and rng.random() < 0.2:
+            doc.append(["copydecay", "MyCopy", mother])
+            targets.append("MyCopy")
+        if len(doc) > 1 and doc[0][1] == "Other" and rng.random() < 0.5:
+            targets.append("Other")
         text = render_doc(doc)
         try:
             p = DecFileParser.from_string(text)
@@ -143,8 +155,8 @@ def run(ctx):
         for (pdg, pm, dp, asc, norm, sc) in combos:
             if pdg and not use_pdg:
                 continue
-            m = pdgname if pdg else mother
-            one(p, wire, text, m, (pdg, pm, dp, asc, norm, sc), "generated")
+            m = pdgname if pdg else (mother if len(targets) == 1 else rng.choice(targets))
+            one(p, wire, text, m, (pdg, pm, dp, asc, norm, sc), "generated" if m == mother or pdg else "generated:derived")
         one(p, wire, text, "nosuchmother", (False, True, True, False, False, None), "missing")
     # the documented example
     s = "Decay MyD_0*+\n 0.533   MyD0   pi+        PHSP;\n 0.08    MyD*0  pi+  pi0   PHSP;\n 0.0271  MyD*+  pi0  pi0   PHSP;\n 0.0542  MyD*+  pi+  pi-   PHSP;\nEnddecay\n"
